@@ -157,7 +157,7 @@ class RuleCtx:
     # A function counts as re-written when at least REWRITE_MIN_LOST of its reference statement lines are gone and fewer than
     # REWRITE_MAX_RETAINED of them survive (lines compared with local names collapsed; added lines do not count: a regression
     # typically adds or tweaks a few statements, a re-formulation replaces them).  Calibrated on the independent rounds
-    # (DESIGN 11.6): 3 of 114 seeded regressions and 52 of 76 equivalent re-formulations cross the line.
+    # (DESIGN 11.6): 4 of 114 seeded regressions and 57 of 76 equivalent re-formulations cross the line.
     REWRITE_MIN_LOST = 5
     REWRITE_MAX_RETAINED = 0.80
 
@@ -177,7 +177,8 @@ class RuleCtx:
             ana.__dict__["_ref_distance"] = dist
         if not dist:
             return ""
-        heavy = {q: v for q, v in dist.items() if v[4] >= self.REWRITE_MIN_LOST and v[3] < self.REWRITE_MAX_RETAINED}
+        heavy = {q: v for q, v in dist.items() if (v[4] >= self.REWRITE_MIN_LOST and v[3] < self.REWRITE_MAX_RETAINED)
+                 or (v[4] >= self.REWRITE_MIN_LOST - 1 and v[3] <= 0.5)}      # a short function that lost half of its statements
         if not heavy:
             return ""
         cache = ana.__dict__.setdefault("_reach_cache", {})
